@@ -478,3 +478,11 @@ z3.RecAddDefinition(_PS, [_a, _k], z3.If(_k <= 0, 0, _PS(_a, _k - 1) + z3.Select
 
 def prefix_sum(arr, k):
     return _PS(arr, k)
+
+_IOTA = z3.RecFunction("iota", z3.IntSort(), IntSeq)
+_n = z3.Int("iota_n")
+z3.RecAddDefinition(_IOTA, [_n], z3.If(_n <= 0, z3.Empty(IntSeq), z3.Concat(_IOTA(_n - 1), z3.Unit(_n - 1))))
+
+
+def iota(k):
+    return _IOTA(k)
